@@ -64,23 +64,30 @@ def reparse_if_needed(student_code=None, report=MAIN_REPORT):
         dict: Returns the Cait Report
     """
     cait = report[TOOL_NAME]
-    if student_code is not None:
-        if student_code in cait['cache']:
-            cait['ast'] = cait['cache'][student_code]
-            return cait
-        else:
-            student_ast = _parse_source(student_code, report=report)
-    else:
+    # `success` and `error` describe the tree in `ast`, so they are remembered
+    # alongside each cached parse (an earlier failed parse of some other code
+    # says nothing about this one)
+    errors = cait.setdefault('errors', {})
+    if student_code is None:
         student_code = report.submission.main_code
-        # Have we already parsed this code?
-        if student_code in cait['cache']:
-            cait['ast'] = cait['cache'][student_code]
-            return cait
-        # Try to steal parse from Source module, if available
-        if report[SOURCE_TOOL_NAME]['success']:
-            student_ast = report[SOURCE_TOOL_NAME]['ast']
-        else:
-            student_ast = _parse_source(student_code, report=report)
+        use_source_tool = True
+    else:
+        use_source_tool = False
+    # Have we already parsed this code?
+    if student_code in cait['cache']:
+        cait['ast'] = cait['cache'][student_code]
+        cait['error'] = errors.get(student_code)
+        cait['success'] = cait['error'] is None
+        return cait
+    # Try to steal parse from Source module, if available
+    if use_source_tool and report[SOURCE_TOOL_NAME]['success']:
+        student_ast = report[SOURCE_TOOL_NAME]['ast']
+        cait['success'] = True
+        cait['error'] = None
+    else:
+        student_ast = _parse_source(student_code, report=report)
+        if not cait['success']:
+            errors[student_code] = cait['error']
     cait['ast'] = cait['cache'][student_code] = CaitNode(student_ast, report=report)
     return cait
 
@@ -123,6 +130,7 @@ def expire_cait_cache(report=MAIN_REPORT):
     """
     report['cait']['ast'] = None
     report['cait']['cache'] = {}
+    report['cait']['errors'] = {}
 
 
 def def_use_error(node, report=MAIN_REPORT):
@@ -304,7 +312,8 @@ def reset(report=MAIN_REPORT):
         'success': True,
         'error': None,
         'ast': None,
-        'cache': {}
+        'cache': {},
+        'errors': {}
     }
     return report[TOOL_NAME]
 
